@@ -191,7 +191,7 @@ Section Inv.
 
   Lemma read_I s : I s -> I (read c s).
   Proof.
-    intros [[A1 A2] B C].
+    intros [A B C]. pose proof (sp_ok_width _ _ A) as Hw. destruct A as (A1 & A2 & A3).
     destruct (read_other s) as (H1 & _ & _ & _ & _ & _ & _ & H8 & _).
     constructor; [apply read_sp_ok; auto | rewrite H8; auto | unfold cnt_ok in *; rewrite H1; auto].
   Qed.
